@@ -289,6 +289,26 @@ def _check_accessors_inner(x, truth, order, alg, ref, case, form):
         raise Violation("map", "map", f"map changed the stored blades: {sorted(m1)} / {sorted(m2)} vs {sorted(truth)}")
     numeric = all(isinstance(v, (int, F)) for v in truth.values())
     if numeric:
+        # classes / builtins as the mapped function (type conversion): called with the coefficient alone, whatever their signature
+        for conv_ in (F, float, complex, abs):
+            mc = kd.to_dict(_call(lambda: x.map(conv_), "map", "map"), op="map")
+            expc = {k: conv_(v) for k, v in truth.items()}
+            if set(mc) != set(expc) or any(not (mc[k] == expc[k]) for k in expc):
+                raise Violation("map", "map", f"map({conv_.__name__}) = {kd.show(mc)}, expected {kd.show(expc)}")
+        fb_ = kd.to_dict(_call(lambda: x.filter(bool), "filter", "filter"), op="filter")
+        if fb_ != {k: v for k, v in truth.items() if v}:
+            raise Violation("filter", "filter", f"filter(bool) = {kd.show(fb_)}, expected the non-zero coefficients of {kd.show(truth)}")
+        # grade selection of the ARGUMENT of a compiled (registered) function reads the same coefficients
+        if not case["graded"] and len(truth) <= 12:
+            gsel = tuple(sorted({pc(k) for k in truth}))[:2] or (0,)
+
+            def f_grade(a, _g=gsel):
+                return a.grade(*_g)
+            rg = kd.to_dict(_call(lambda: alg.register(f_grade)(x), "grade-selection", "grade"), op="grade")
+            eg = {k: v for k, v in truth.items() if pc(k) in gsel}
+            if set(rg) != set(eg) or any(not _eq(rg[k], eg[k]) for k in eg):
+                raise Violation("grade-selection", "grade", f"alg.register(lambda a: a.grade{gsel})(x) = {kd.show(rg)} for x with keys {list(x.keys())}, "
+                                f"expected {kd.show(eg)}")
         f0 = kd.to_dict(_call(lambda: x.filter(), "filter", "filter"), op="filter")
         f1 = kd.to_dict(_call(lambda: x.filter(lambda v: v > 0), "filter", "filter"), op="filter")
         f2 = kd.to_dict(_call(lambda: x.filter(lambda k, v: k % 2 == 0), "filter", "filter"), op="filter")
